@@ -63,6 +63,7 @@ PROBES = [
     "apply_failed_then_reapplied",
     "reapplied_to_own_result",
     "document_as_text",
+    "foreign_patch_in_process",
 ]
 FORMS = ["dicts", "text", "file", "builder_str", "builder_ptr", "asdicts", "stringio", "tuple", "generator", "bytesio"]
 ALL_KINDS = ["add", "remove", "replace", "move", "copy", "test", "addne", "addap"]
@@ -96,17 +97,31 @@ def generate(seed: int, config: str, tier: str) -> Dict[str, Any]:
     kinds = [k for k in ALL_KINDS if rng.random() < 0.8] or ["add"]
     if rng.random() < 0.5 and "add" not in kinds:
         kinds.append("add")
-    oplists = []
-    failing_at: List[Optional[int]] = []
-    for _ in range(rng.randint(1, 3)):
-        ops = gen_patch.gen_oplist(rng, prof, JSONPatch, base, rng.randint(1, 12 if tier == "thorough" else 8), kinds)
-        if not ops:
-            ops = [{"op": "add", "path": "/a", "value": []}]
-        k = None
-        if faulty and frng.random() < 0.25:
-            ops, k = gen_patch.make_failing(frng, ops)
-        oplists.append(ops)
-        failing_at.append(k)
+    # now and then another patch object with *other options* (URI decoding on, escape decoding off) is built from
+    # the same operation list in the same process; it must not change what the default-option patches do
+    foreign = rng.choice(["early", "late"]) if rng.random() < 0.15 else None
+    if foreign:
+        prof["keys"] = list(prof["keys"]) + [k for k in ("%41", "a%20b", "50%25") if k not in prof["keys"]]
+    orng = core.stream(seed, "ops")
+    ofrng = core.stream(seed, "opsfault")
+
+    def _gen_oplists() -> Any:
+        ol = []
+        fa: List[Optional[int]] = []
+        for _ in range(orng.randint(1, 3)):
+            ops = gen_patch.gen_oplist(orng, prof, JSONPatch, base, orng.randint(1, 12 if tier == "thorough" else 8), kinds)
+            if not ops:
+                ops = [{"op": "add", "path": "/a", "value": []}]
+            k = None
+            if faulty and ofrng.random() < 0.25:
+                ops, k = gen_patch.make_failing(ofrng, ops)
+            ol.append(ops)
+            fa.append(k)
+        return ol, fa
+
+    # choosing plausible operations applies candidate ops with the engine; when the run is about what a patch with
+    # other options leaves behind in the process, that must not happen in the process that executes the run
+    oplists, failing_at = core.in_child(_gen_oplists) if foreign else _gen_oplists()
     clients = []
     for _ in range(rng.randint(1, 3)):
         script: List[List[Any]] = []
@@ -131,7 +146,10 @@ def generate(seed: int, config: str, tier: str) -> Dict[str, Any]:
             else:
                 script.append(_gen_addx(rng, prof, docs))
         clients.append(script)
-    plan = {"oplists": oplists, "failing_at": failing_at, "docs": docs, "clients": clients}
+    if foreign == "late":
+        ci = rng.randrange(len(clients))
+        clients[ci].insert(rng.randrange(len(clients[ci]) + 1), ["foreign", rng.randrange(len(oplists))])
+    plan = {"oplists": oplists, "failing_at": failing_at, "docs": docs, "clients": clients, "foreign": foreign}
     return {"property": PROPERTY, "config": config, "seed": seed, "knobs": {"p_sched": rng.choice([0.2, 0.4, 0.6])}, "plan": plan}
 
 
@@ -205,10 +223,31 @@ def execute(spec: Dict[str, Any], ctx: Ctx) -> None:
     has_container_op = [any(isinstance(o.get("value"), (dict, list)) for o in ops) for ops in oplists]
 
     # reference, computed in isolation before the run
-    ref: Dict[Tuple[int, int], Tuple[str, Any]] = {}
-    for L, ops in enumerate(oplists):
-        for D, doc in enumerate(docs):
-            ref[(L, D)] = _outcome(lambda ops=ops, doc=doc: JSONPatch(copy.deepcopy(ops)).apply(copy.deepcopy(doc)))
+    def _refs() -> Dict[Tuple[int, int], Tuple[str, Any]]:
+        out: Dict[Tuple[int, int], Tuple[str, Any]] = {}
+        for L, ops in enumerate(oplists):
+            for D, doc in enumerate(docs):
+                out[(L, D)] = _outcome(lambda ops=ops, doc=doc: JSONPatch(copy.deepcopy(ops)).apply(copy.deepcopy(doc)))
+        return out
+
+    def foreign_patch(L: int) -> None:
+        """Another patch object, same operation list, other options: URI decoding on, escape decoding off."""
+        ctx.count("probe.foreign_patch_in_process")
+        ctx.log.add("foreign-patch", L)
+        try:
+            fp = JSONPatch(copy.deepcopy(oplists[L]), unicode_escape=False, uri_decode=True)
+            fp.apply(copy.deepcopy(docs[0]))
+        except Exception:  # noqa: BLE001
+            pass
+
+    if plan.get("foreign"):
+        # in a forked child: whatever the differently configured patch leaves behind cannot reach the reference
+        ref = core.in_child(_refs)
+        if plan["foreign"] == "early":
+            for L in range(len(oplists)):
+                foreign_patch(L)
+    else:
+        ref = _refs()
     for L, ops in enumerate(oplists):
         _scan_probes(ctx, ops, plan["failing_at"][L])
 
@@ -400,6 +439,9 @@ def execute(spec: Dict[str, Any], ctx: Ctx) -> None:
             check_patches(stepname, "C15.patch_unchanged")
             check_caller(stepname)
             check_results(stepname, len(results) - 1 if (kept is not None or out[0] == "ok") else None)
+        elif kind == "foreign":
+            foreign_patch(step[1] % len(oplists))
+            check_patches("building and applying a patch with other options", "C15.independent")
         elif kind == "reapply":
             _, L, form, k = step
             L %= len(oplists)
